@@ -295,6 +295,19 @@ func (c04) Run(t *testing.T, scenario any, job *Job, res *Result) {
 		wt.Close()
 		res.Probe("inotify_events", len(evs))
 		for _, ev := range evs {
+			if ev.Op == "modify" {
+				// new content reaches a listed path by rename only: a write (or a
+				// truncation) through the final name is a window in which the path
+				// holds a partial file, however short
+				if nw, listed := ac.want[ev.Path]; listed && nw.Type == "f" {
+					if old, had := ac.before[ev.Path]; had && old.Type == "f" {
+						res.Violate("non-atomic", "written-in-place:"+receiverSide(sc.Sync.Arr), fmt.Sprintf("fault-free run: the kernel recorded a write to %q through its final name; it existed before and is listed as a regular file, so its new content must arrive by rename", ev.Path))
+						setTape(&sc.Sync.Tr, base)
+						return
+					}
+				}
+				continue
+			}
 			if ev.Op != "delete" && ev.Op != "moved_from" {
 				continue
 			}
